@@ -53,6 +53,8 @@ pub enum Closer {
     Drain,
     /// drop A's task before its k-th poll
     Abort(usize),
+    /// a stopper, a drainer and a killer race (three tasks)
+    StopDrainKill,
 }
 
 #[derive(Clone, Debug)]
@@ -287,11 +289,27 @@ pub async fn run_scenario(sc: Sc) -> Run {
             }
         }));
     }
+    let mut extra_closers = Vec::new();
+    if sc.closer == Closer::StopDrainKill {
+        let (a1, a2) = (a_ref.clone(), a_ref.clone());
+        extra_closers.push(vsched::spawn("closer", async move {
+            a1.stop(Some("raced".into()));
+            ("stop", vsched::ret_stamp())
+        }));
+        extra_closers.push(vsched::spawn("closer", async move {
+            let _ = a2.drain();
+            ("drain", vsched::ret_stamp())
+        }));
+    }
     let a = a_ref.clone();
     let closer_kind = sc.closer.clone();
     let closer = vsched::spawn("closer", async move {
         match closer_kind {
             Closer::None | Closer::Abort(_) => ("none", 0),
+            Closer::StopDrainKill => {
+                a.kill();
+                ("kill", vsched::ret_stamp())
+            }
             Closer::Stop(reason) => {
                 a.stop(reason.map(|s| s.to_string()));
                 ("stop", vsched::ret_stamp())
@@ -335,6 +353,15 @@ pub async fn run_scenario(sc: Sc) -> Run {
         if let Some(Some((id, _call, ret))) = c.await {
             run.c_id = Some(id);
             run.child_stop_ret = Some(ret);
+        }
+    }
+    for x in extra_closers {
+        if let Some((what, ret)) = x.await {
+            match what {
+                "stop" => run.stop_ret = Some(ret),
+                "drain" => run.drain_ret = Some(ret),
+                _ => {}
+            }
         }
     }
     if let Some((what, ret)) = closer.await {
